@@ -270,4 +270,24 @@ def topNRel (n : Option Nat) (off : Nat) (ks : List OrderKey) (X : List Row) : L
 def SortedBy {α} (cmp : α → α → Ordering) (X : List α) : Prop :=
   X.Pairwise (fun a b => cmp a b ≠ .gt)
 
+/-! ## correlated scalar aggregate subqueries (nested iteration)
+
+`outer.col <cmp> (SELECT agg(e) FROM R WHERE corr)`: for EVERY outer row — duplicates included — the
+subquery is evaluated on the rows of `R` that satisfy the correlation predicate together with the
+outer row; the aggregate sees the concatenated rows `l ++ r`.  The value is appended as a new last
+column; filtering / projecting on it is ordinary `filterRel` / `projRel`. -/
+
+/-- value of the scalar aggregate subquery for the outer row `l`. -/
+def scalarSubAgg (agg : AggCall) (corr : Pred) (R : List Row) (l : Row) : Val :=
+  aggVal agg.kind (((matchesOf corr l R).map (l ++ ·)).map agg.arg)
+
+/-- `SELECT l.*, (SELECT agg FROM R WHERE corr) FROM L l`: one output row per outer row. -/
+def applyScalarAgg (agg : AggCall) (corr : Pred) (L R : List Row) : List Row :=
+  L.map (fun l => l ++ [scalarSubAgg agg corr R l])
+
+/-- the same with `GROUP BY <correlated column>` inside the subquery: an outer row without partner
+has NO group, the scalar subquery is then NULL whatever the aggregate (also for COUNT). -/
+def applyGroupAgg (agg : AggCall) (corr : Pred) (L R : List Row) : List Row :=
+  L.map (fun l => l ++ [if (matchesOf corr l R).isEmpty then Val.null else scalarSubAgg agg corr R l])
+
 end RlModel
